@@ -6,8 +6,13 @@ from .common import d_str, d_bool, d_opt, d_list
 LEVEL = 'proof'
 RULE = ('strings are drawn per character from weighted classes (plain, ok-punctuation, blank, single quote, sh-special, '
         'Make-special, backslash, non-ASCII word / non-word / space), lengths 0..10, plus a corpus of corner cases; '
-        'a case is non-trivial when it contains at least one character outside [A-Za-z0-9_] and distinct by its exact text')
-TRUSTED = ('R model Shell/Sh.v validated against /bin/dash on this run',
+        'a case is non-trivial when it contains at least one character outside [A-Za-z0-9_] and distinct by its exact text; '
+        'environment channel: names from a list of identifiers (and, for the tie only, of non-identifiers), values from a corpus '
+        'rich in ~ : = plus random strings over ~ : = / a b . plus the general generator; sh lines for the R validation from a '
+        'corpus of probed cases, the real writer output (also mutated) and random assemblies of tilde-relevant atoms')
+TRUSTED = ('R model Shell/Sh.v validated against /bin/dash on this run (word splitting; second layer: assignment words, export, tilde '
+           'expansion, environment along && - with a private HOME; a process in an && list is assumed to exit 0; login-name tilde '
+           'prefixes, OPTIND and shell builtins as command words are outside the model fragment)',
            'R models Make/MakeRead.v and Make/MakeCall.v (define bodies, $(call ...) argument splitting, binding, body expansion, '
            'recipe lines) validated against /usr/bin/make on this run; call recipes whose command line ends in a backslash or lets $$ '
            'reach sh are outside the validated fragment',
@@ -910,6 +915,309 @@ def stage_oracle_env(rep, rng, n):
     return bad
 
 
+# ----------------------------------------------------------------------------- environment channel: tie and R model
+PRIVATE_HOME = '/var/tmp/c01-private-home'
+ENV_NAMES_OK = ['VAR', 'A_1', 'x', '_', 'PATH_2', 'HOME', 'X', 'LD_LIBRARY_PATH', 'a1', '_9']
+ENV_NAMES_ODD = ['', '1A', 'A B', 'a=b', 'é', 'X~', 'A-B', "A'", 'OPTIND', '~', '=']
+REC_NAMES = ('HOME', 'X', 'Y', 'PRE', 'VAR', 'A_1', 'x', '_9', 'PATH_2', 'a1', 'LD_LIBRARY_PATH')
+
+
+def canon_item(x):
+    """One element of a shell_list -> list of [kind, text] bits (kind 0 = str, 1 = shell_literal)."""
+    from bfg9000.safe_str import jbos, shell_literal
+    if isinstance(x, jbos):
+        return [[0, b] if isinstance(b, str) else [1, b.string] for b in x.bits if isinstance(b, (str, shell_literal))]
+    if isinstance(x, shell_literal):
+        return [[1, x.string]]
+    if isinstance(x, str):
+        return [[0, x]]
+    raise TypeError(type(x))
+
+
+def d_items(r):
+    return [[[int(b[0]), d_str(b[1])] for b in it] for it in r]
+
+
+def enc_line(l):
+    return [1, l] if isinstance(l, str) else [0, [[[0, w]] for w in l]]
+
+
+def ident_ok(n):
+    import re
+    return bool(re.match(r'^[A-Za-z_][A-Za-z0-9_]*$', n)) and n != 'OPTIND'
+
+
+def gen_env(rng, rep=None, odd=0.0, maxn=3):
+    env = {}
+    for _ in range(rng.choice([0, 1, 1, 1, 2, maxn])):
+        name = rng.choice(ENV_NAMES_ODD) if rng.random() < odd else rng.choice(ENV_NAMES_OK)
+        v = env_value(rng, rep)
+        if '\0' in v:
+            continue
+        env[name] = v
+    return env
+
+
+def stage_w_env(rep, rng, n):
+    """W tie of the environment half of shell/posix.py: join_lines, local_env, global_env (structure of the returned
+    shell_list, bit by bit) and the sh text of the items (quote of every item, joined with blanks)."""
+    from io import StringIO
+    from bfg9000.shell import posix as pshell
+    from bfg9000.backends.make.syntax import Makefile
+    uw, us = gen.uni_tables()
+    calls, impl = [], []
+    mk = Makefile('build.bfg')
+
+    def gen_line():
+        if rng.random() < 0.2:
+            return gen.arg_string(rng, rep, maxlen=8)        # a raw string: passed through as one shell_literal
+        return gen.arg_list(rng, rep, maxn=3, maxlen=6)
+    for i in range(n):
+        env = gen_env(rng, rep, odd=0.25)
+        lines = [gen_line() for _ in range(rng.choice([0, 1, 1, 2, 3]))]
+        pairs = [[k, v] for k, v in env.items()]
+        got = pshell.global_env(env, lines if (lines or rng.random() < 0.5) else None)
+        calls.append(('posix.global_env', [pairs, [enc_line(l) for l in lines]])); impl.append([canon_item(x) for x in got])
+        calls.append(('posix.sh_text', [uw, [canon_item(x) for x in got]])); impl.append(' '.join(pshell.quote(x) for x in got))
+        # the recipe text the real Makefile writer makes of the items (the W function of C01_env_through_make)
+        w = mk.writer(StringIO())
+        try:
+            w.write_shell(got)
+            iv = w.stream.getvalue()
+        except ValueError:
+            iv = None
+        calls.append(('make.write_each', [uw, us, [[[2, b[1]] if b[0] == 0 else [1, b[1]] for b in canon_item(x)] for x in got], 3]))
+        impl.append(iv)
+        line = gen_line()
+        got = pshell.local_env(env, line)
+        calls.append(('posix.local_env', [pairs, enc_line(line)])); impl.append([canon_item(x) for x in got])
+        calls.append(('posix.sh_text', [uw, [canon_item(x) for x in got]])); impl.append(' '.join(pshell.quote(x) for x in got))
+        got = pshell.join_lines(lines)
+        calls.append(('posix.join_lines', [[enc_line(l) for l in lines]])); impl.append([canon_item(x) for x in got])
+        rep.case('wenv:%r:%r:%r' % (pairs, lines, line), True)
+        rep.count('wenv:nenv=%d' % len(env))
+    rep.sample({'stage': 'W:env', 'call': calls[0][0], 'arg': calls[0][1]})
+    return common.compare_model(rep, 'W:posix env', calls, impl,
+                                lambda name, r: d_str(r) if name == 'posix.sh_text' else
+                                d_opt(d_str, r) if name == 'make.write_each' else d_items(r))
+
+
+def d_run(r):
+    """sh.run result -> None | ([(env dict, argv)], ok)"""
+    return d_opt(lambda x: ([({d_str(p[0]): d_str(p[1]) for p in pr[0]}, d_list(d_str, pr[1])) for pr in x[0]], d_bool(x[1])), r)
+
+
+class DashEnv:
+    """The real dash with a private HOME and a directory on PATH whose programs `rec` and `rec2` are the recorder."""
+    def __init__(self):
+        import os
+        self.dir = common.scratch('c01env')
+        for nm in ('rec', 'rec2'):
+            os.symlink(shtools.ARGVREC, os.path.join(self.dir, nm))
+        self.extra = {'HOME': PRIVATE_HOME, 'PATH': self.dir + ':/usr/bin:/bin', 'PRE': 'pre0'}
+        self.env0 = [['HOME', PRIVATE_HOME], ['PRE', 'pre0'], ['PATH', self.extra['PATH']]]
+
+    def close(self):
+        import shutil
+        shutil.rmtree(self.dir, ignore_errors=True)
+
+    def run(self, line, names=REC_NAMES):
+        """-> ([(argv0 basename, argv, {name: value})], ok)"""
+        import os
+        rc, recs, err = shtools.dash_run(line, envnames=names, extra_env=self.extra)
+        return [(os.path.basename(r['argv0'] or ''), r['argv'], r['env']) for r in recs], rc == 0
+
+
+R_ENV_CORPUS = [
+    'export X=~/a && rec', 'export X=a:~/b && rec', 'export X=~ && rec', 'X=~/a rec', 'X=a:~ rec', 'X=a:~/b:~ rec', "X='~' rec",
+    'X=\\~ rec', "X=~'/a' rec", "X='~'/a rec", 'X=a=~ rec', 'X==~ rec', 'X=~:~ rec', 'X=:~ rec', 'X=a~ rec', "X=a:'~' rec",
+    "X=a':'~ rec", "X=a:~'b' rec", 'X=~/~ rec', 'X=~: rec', "rec ~ ~/a a~ a:~ a=~ '~' ~'' ~'a' ~/'a b' X=~", 'HOME=/Z X=~ rec',
+    'export HOME=/Z && X=~ rec', 'HOME=/Z && X=~ rec', 'HOME= && X=~ rec', 'HOME= && rec ~ x ~/a', "HOME= && rec ~'' x", 'export X=1 && export Y=2 && rec',
+    'export 1A=x && rec', '1A=x rec', "export 'A B'=x && rec", 'export X=a Y=~ && rec', 'X=1 Y=~ rec', 'X=1 && rec', 'export ~/a=~ && rec',
+    'X=1 X=2 rec', 'export X=1 && X=2 rec', 'export X=1 && X=2 && rec', 'HOME=/Q rec ~ x', 'HOME=/Q X=~ rec ~', "X''=1 rec", "X=1''~ rec",
+    "X=''~ rec", "X=a:''~ rec", "export X''=~ && rec", 'export X=1 PRE && rec', 'export PRE && rec', 'rec a&&rec2 b', "export X=~/'a b' && rec",
+    "X=~/'a b':~ rec", 'X=~\\/a rec', 'rec ~\\/a ~/\\a', "export 'X'=~ && rec", "export 'X='~ && rec", "export X'='~ && rec",
+    "export X=a'='b=~:~ && rec", 'export X=~ Y=~/b:~ && rec', "'export' X=~ && rec", "ex'port' X=a:~ && rec", 'export HOME=/Q X=~ && rec',
+    'export X=~ HOME=/Q Y=~ && rec', 'X=~ HOME=/Q Y=~ rec', 'export X= && rec', 'X= rec', 'export A_1=B=~ && rec', 'export =x && rec',
+    "export X='a'\\'''\\''b' && rec", "X='a'\\'''\\''~' rec", "X=\\''~' rec", 'export X=a:~ && rec ~ && rec2 X=~', "X=a:~/b'c d':~ rec 'x y'",
+    'rec && rec2', 'rec a && X=~ rec2 ~/b c', 'X=1', 'X=~ && export X && rec', 'export a:~=x && rec', 'export X:~ && rec',
+]
+R_ENV_ATOMS = ['~', '~', ':', '=', '/', 'a', 'b', "'", "''", "'a'", "'~'", "':'", '\\~', "\\'", ' ', ' ', ' && ', 'export ', 'X=', 'Y=', 'HOME=',
+               'rec ', 'rec2 ', 'PRE', "'a b'", '.', '@', '-']
+
+
+R_ENV_VAL_ATOMS = ['~', '~', '~', ':', ':', '/', '/', '=', 'a', 'b', '.', "'b'", "''", "'~'", '\\~', "':'", "'/'", "'='", "\\'", "'a b'", ',']
+
+
+def stage_r_env(rep, rng, n):
+    """R validation of the environment layer of Sh.v (sh_run: assignment words, export, tilde expansion, && with the
+    environment carried along) against the real dash with a private HOME. Lines: a corpus of the probed cases, lines written
+    by the real global_env/local_env, the same with quotes removed or characters replaced, and random assemblies of atoms.
+    On every line the model accepts, dash must start the same processes with the same words and the same values of the
+    recorded variables, and agree on whether the whole list ran."""
+    from bfg9000.shell import posix as pshell
+    uw, _ = gen.uni_tables()
+    d = DashEnv()
+    bad = acc = 0
+    try:
+        lines = list(R_ENV_CORPUS)
+        for _ in range(n):
+            k = rng.random()
+            if k < 0.35:
+                # structured: assignment words / export arguments / ordinary words built from the atoms tilde expansion looks at
+                def val():
+                    return ''.join(rng.choice(R_ENV_VAL_ATOMS) for _ in range(rng.randint(0, 5)))
+
+                def asg():
+                    return rng.choice(['X', 'Y', 'HOME', 'A_1', 'PRE']) + '=' + val()
+                parts = []
+                for _ in range(rng.randint(1, 3)):
+                    f = rng.random()
+                    if f < 0.35:
+                        parts.append('export ' + ' '.join(asg() if rng.random() < 0.85 else rng.choice(['PRE', 'X', val()])
+                                                            for _ in range(rng.randint(1, 2))))
+                    elif f < 0.45:
+                        parts.append(' '.join(asg() for _ in range(rng.randint(1, 2))))
+                    else:
+                        parts.append(' '.join([asg() for _ in range(rng.randint(0, 2))] + [rng.choice(['rec', 'rec2'])] +
+                                              [val() for _ in range(rng.randint(0, 2))]))
+                line = ' && '.join(parts)
+            elif k < 0.45:
+                line = ''.join(rng.choice(R_ENV_ATOMS) for _ in range(rng.randint(2, 9)))
+            else:
+                env = {rng.choice(['X', 'Y', 'HOME', 'A_1', 'PRE']): env_value(rng) for _ in range(rng.randint(1, 2))}
+                cmd = ['rec'] + [env_value(rng) for _ in range(rng.randint(0, 2))]
+                items = pshell.global_env(env, [cmd, ['rec2', 'z']]) if rng.random() < 0.5 else pshell.local_env(env, cmd)
+                line = ' '.join(pshell.quote(x) for x in items)
+                if k < 0.85:
+                    chars = list(line)
+                    for _ in range(rng.randint(1, 3)):
+                        i = rng.randrange(len(chars))
+                        op = rng.random()
+                        if op < 0.5:
+                            del chars[i]
+                        elif op < 0.8:
+                            chars[i] = rng.choice("~:='/ a")
+                        else:
+                            chars.insert(i, rng.choice("~:='/ a"))
+                        if not chars:
+                            chars = ['a']
+                    line = ''.join(chars)
+            if any(c in line for c in '\n\r\0'):
+                continue
+            lines.append(line)
+        raw = common.model_batch([('sh.run', [uw, d.env0, l]) for l in lines])
+        for l, r in zip(lines, raw):
+            mv = d_run(r)
+            if mv is None:
+                rep.count('R:env outside the model fragment')
+                continue
+            procs, ok = mv
+            if any(p[1][0] not in ('rec', 'rec2') for p in procs):
+                rep.count('R:env command word is not a recorder')
+                continue
+            acc += 1
+            want = ([(p[1][0], p[1][1:], {k: v for k, v in p[0].items() if k in REC_NAMES}) for p in procs], ok)
+            got = d.run(l)
+            rep.case('renv:' + l, True)
+            expanded = any(PRIVATE_HOME in v for p in want[0] for v in list(p[2].values()) + p[1] if v != PRIVATE_HOME) or \
+                any(v == PRIVATE_HOME for p in want[0] for k, v in list(p[2].items()) + [('', a) for a in p[1]] if k != 'HOME')
+            rep.count('R:env line with a tilde that the model %s' % (
+                'expands' if expanded else 'leaves alone' if '~' in l else '- no tilde'))
+            if got != want:
+                bad += 1
+                rep.fail('R:sh_run - the sh model and /bin/dash disagree on %r: model %r, dash %r' % (l, want, got),
+                         {'obligation': 'R:sh_run', 'line': l, 'model': want, 'dash': got}, found_input=False)
+    finally:
+        d.close()
+    rep.stage('R:dash environment', lines=len(lines), accepted_by_model=acc, disagreements=bad)
+
+
+def stage_probe_env_names(rep):
+    """Candidate finding C01-env-name-not-identifier (the complement of the guard name_ok of C01_env_global/local, witness
+    C01_env_name_refuted): environment names that are not sh identifiers (and OPTIND with a non-number) run through the real
+    writer, the real make and /bin/sh. Recorded in the evidence, never reported as a violation here (status: candidate)."""
+    from io import StringIO
+    from bfg9000.backends.make.syntax import Makefile
+    from bfg9000.shell import posix as pshell
+    res = {}
+    for name, value in [('1A', 'x'), ('A.B', 'x'), ('A-B', 'x'), ('A B', 'x'), ('é', 'x'), ('OPTIND', 'abc'), ('OPTIND', '3'), ('GOOD_1', 'x')]:
+        for form in ('global_env', 'local_env'):
+            mk = Makefile('build.bfg')
+            cmd = [shtools.ARGVREC, 'x y']
+            envd = {name: value}
+            mk.rule('all', recipe=[pshell.global_env(envd, [cmd]) if form == 'global_env' else pshell.local_env(envd, cmd)], phony=True)
+            o = StringIO()
+            mk.write(o)
+            rc, recs, out = shtools.make_run(o.getvalue(), 'all', envnames=(name,), extra_env={'HOME': PRIVATE_HOME})
+            ok = rc == 0 and len(recs) == 1 and recs[0]['argv'] == ['x y'] and recs[0]['env'].get(name) == value
+            res['%s=%s %s' % (name, value, form)] = 'delivered' if ok else 'NOT delivered (make exit %d: %s)' % (
+                rc, out.strip().split('\n')[-1][-80:] if out.strip() else '')
+            rep.case('envname:%s:%s' % (name, form), True)
+    rep.stage('probe:environment names outside the guard (candidate finding)', **res)
+    if res.get('GOOD_1=x global_env') != 'delivered' or res.get('GOOD_1=x local_env') != 'delivered' or \
+            res.get('OPTIND=3 global_env') != 'delivered':
+        rep.fail('environment-name probe: the control case is not delivered: %r' % (res,), {'obligation': 'probe:env names', 'result': res},
+                 found_input=False)
+
+
+def stage_t_env(rep, rng, n):
+    """Theorem-level stage of C01_env_global / C01_env_local: the text the REAL global_env / local_env + quote write for
+    environments and commands inside the guards of the theorems, run by the extracted sh model (with tilde expansion and a
+    private HOME), must deliver exactly the declared values and words. A mismatch is re-run on the real dash: if dash
+    misdelivers too it is a failing input of the property, otherwise a broken obligation. Returns (failing inputs, broken)."""
+    from bfg9000.shell import posix as pshell
+    uw, _ = gen.uni_tables()
+    d = DashEnv()
+    cases = []
+    for v in ENV_VALUES:
+        cases.append(({'VAR': v}, [['rec', 'x y']]))
+    while len(cases) < n:
+        env = {k: v for k, v in gen_env(rng, rep, maxn=4).items() if ident_ok(k)}
+        cmds = [[rng.choice(['rec', 'rec2'])] + [env_value(rng, rep) for _ in range(rng.randint(0, 3))] for _ in range(rng.randint(1, 3))]
+        cases.append((env, cmds))
+    found = broken = 0
+    try:
+        texts = []
+        for env, cmds in cases:
+            for form in ('global_env', 'local_env'):
+                cs = cmds if form == 'global_env' else cmds[:1]
+                if any('\0' in w for c in cs for w in c):
+                    continue
+                items = pshell.global_env(env, cs) if form == 'global_env' else pshell.local_env(env, cs[0])
+                texts.append((form, env, cs, ' '.join(pshell.quote(x) for x in items)))
+        raw = common.model_batch([('sh.run', [uw, d.env0, t[3]]) for t in texts])
+        for (form, env, cs, text), r in zip(texts, raw):
+            mv = d_run(r)
+            base = {'HOME': PRIVATE_HOME, 'PRE': 'pre0'}
+            base.update(env)
+            names = tuple(base)
+            want = ([(c[0], c[1:], dict(base)) for c in cs], True)
+            got = None if mv is None else ([(p[1][0], p[1][1:], {k: v for k, v in p[0].items() if k in names}) for p in mv[0]], mv[1])
+            rep.case('tenv:%s:%r:%r' % (form, env, cs), True)
+            rep.count('T:env:' + form)
+            if got != want:
+                if any(c in text for c in '\n\r'):
+                    real = None
+                else:
+                    real = d.run(text, names)
+                if real is not None and real != want:
+                    if rep.fail('%s: environment %r / commands %r written as %r are delivered by /bin/sh as %r' % (form, env, cs, text, real),
+                                {'channel': 'env', 'form': form, 'env': env, 'commands': cs, 'written': text, 'delivered': real,
+                                 'model': got}):
+                        found += 1
+                else:
+                    broken += 1
+                    rep.fail('T:env - the text %r written by the real %s is not delivered by the sh model as declared: model %r, '
+                             'declared %r (real dash: %r)' % (text, form, got, want, real),
+                             {'obligation': 'C01_env_%s on the real text' % form[:-4], 'text': text, 'model': got, 'declared': want,
+                              'dash': real}, found_input=False)
+    finally:
+        d.close()
+    rep.stage('T:environment theorems on the real text', texts=len(texts), failing_inputs=found, broken=broken)
+    return found
+
+
 def run(rep):
     rng = random.Random(rep.seed)
     thorough = rep.tier == 'thorough'
@@ -920,6 +1228,8 @@ def run(rep):
     dis += stage_w_make(rep, rng, n // 2)
     dis += stage_w_call(rep, rng, n // 3)
     dis += stage_w_nested(rep, rng, n // 3)
+    dis += stage_w_env(rep, rng, n // 3)
+    stage_r_env(rep, rng, n)
     stage_r_make(rep, rng, 300 if thorough else 60)
     stage_r_call(rep, rng, 600 if thorough else 150)
     found = stage_oracle_quote(rep, rng, n // 2 * (10 if dis else 1))
@@ -927,6 +1237,8 @@ def run(rep):
     found += stage_oracle_call(rep, rng, (400 if thorough else 70) * (5 if dis else 1))
     found += stage_oracle_nested(rep, rng, (300 if thorough else 50) * (5 if dis else 1))
     found += stage_oracle_env(rep, rng, (300 if thorough else 90) * (5 if dis else 1))
+    found += stage_t_env(rep, rng, n * (5 if dis else 1))
+    stage_probe_env_names(rep)
     found += stage_oracle_cmdword(rep)
     from . import c06
     for i in range(12 if thorough else 2):
